@@ -117,7 +117,7 @@ Lemma init_pending r : pending_err r (B.init_state (d_pre d) r) = init_err r.
 Proof. unfold pending_err, init_err. rewrite BP.init_state_err. destruct (d_pre d); reflexivity. Qed.
 
 (* ---- the chains of the real table, flattened ---- *)
-Variables (slug : str) (p : F.pkind) (q : request) (an : answers).
+Variables (slug : str) (p : akind) (q : request) (an : answers).
 Let now_s := (now_ns / ns)%Z.
 
 Definition method_ok (ms : list str) (r : B.request) : bool := mem_str (B.rq_method r) ms.
@@ -198,7 +198,7 @@ End Gates.
 
 Section Adapters.
 Variable lower : str -> str.
-Variables (d : deployment) (o : oracles) (now_ns : Z) (slug : str) (p : F.pkind) (q : request) (an : answers).
+Variables (d : deployment) (o : oracles) (now_ns : Z) (slug : str) (p : akind) (q : request) (an : answers).
 Let now_s := (now_ns / ns)%Z.
 Let e := benv d p o an now_s.
 Let ck := cookie_of d o (lookup slug (q_sess q)).
@@ -270,7 +270,7 @@ Theorem sign_in_adapter r :
   if method_ok [B.m_get] r && init_err d r then gate_err r 500
   else of_flow_sign_in r (o_query_ok o (redirect_value r)) (redirect_value r)
          (if gates_all r then Some HSignIn else None)
-         (F.sign_in_route lower (fcfg d) p now_s (si_request_of r) ck (an_refresh an) (an_validate an)).
+         (F.sign_in_route lower (fcfg d) (fkind p) now_s (si_request_of r) ck (an_refresh an) (an_validate an)).
 Proof.
   rewrite sign_in_flat. unfold F.sign_in_route, gates_all, si_request_of.
   cbn [F.si_get F.si_client_ok F.si_redirect_ok F.si_sig_ok].
@@ -343,7 +343,7 @@ Proof.
 Qed.
 
 (* the request is handed to the service mux of the authenticator registered under [slug] *)
-Definition routed (d : deployment) (q : request) (slug : str) (k : F.pkind) (rest : str) : Prop :=
+Definition routed (d : deployment) (q : request) (slug : str) (k : akind) (rest : str) : Prop :=
   q_path q <> p_ping /\ q_host q = d_host d /\ ReqUri.clean_path (q_path q) = q_path q /\
   find_slug (q_path q) (d_slugs d) = Some (slug, k, rest).
 
@@ -473,12 +473,12 @@ Qed.
 
 Section SignIn.
 Variable lower : str -> str.
-Variables (d : deployment) (o : oracles) (now_ns : Z) (slug : str) (p : F.pkind) (q : request) (an : answers).
+Variables (d : deployment) (o : oracles) (now_ns : Z) (slug : str) (p : akind) (q : request) (an : answers).
 Let now_s := (now_ns / ns)%Z.
 Let ck := cookie_of d o (lookup slug (q_sess q)).
 Let r := inner q p_sign_in.
 Let resp := serve_route lower d slug p q o an now_ns rt_sign_in r (B.init_state (d_pre d) r).
-Let fr := F.sign_in lower (fcfg d) p now_s (F.mkSI true true true true (B.form_get k_state (the_form r))) ck
+Let fr := F.sign_in lower (fcfg d) (fkind p) now_s (F.mkSI true true true true (B.form_get k_state (the_form r))) ck
                     (an_refresh an) (an_validate an).
 
 Definition sign_in_gates_pass : Prop :=
@@ -559,12 +559,12 @@ Theorem code_sound_int src s : r_loc resp = LCode src s ->
      F.s_email s = F.s_email s0 /\ F.s_lifetime s = F.s_lifetime s0 /\ F.s_rtok s = F.s_rtok s0 /\
      r_sess_ops resp = [F.OpSet s] /\
      (FP.refreshed_ok now_s s0 (an_refresh an) s (F.r_calls fr) \/
-      FP.validated_ok p now_s s0 (an_validate an) s (F.r_calls fr)) /\
+      FP.validated_ok (fkind p) now_s s0 (an_validate an) s (F.r_calls fr)) /\
      r_calls resp = map CIdp (F.r_calls fr)) /\
   r_status resp = 302 /\ r_ran resp = Some HSignIn.
 Proof.
   intros Hl. destruct (sign_in_loc_code src s Hl) as [Hg [Hs [Hq [Hc He]]]].
-  pose proof (FP.code_sound lower (fcfg d) p now_s (F.mkSI true true true true (B.form_get k_state (the_form r))) ck
+  pose proof (FP.code_sound lower (fcfg d) (fkind p) now_s (F.mkSI true true true true (B.form_get k_state (the_form r))) ck
                 (an_refresh an) (an_validate an) s Hc) as [[_ [_ [_ [_ Hst]]]] [s0 [Hck [Hlt [Hru [Hem [Hli [Hrt [Hops Hor]]]]]]]]].
   destruct Hg as [Hm [Hi [Hid [Hru' Hsg]]]].
   split; [repeat split; assumption|]. split; [exact Hs|]. split; [exact Hst|].
@@ -584,7 +584,7 @@ End SignIn.
 
 Section Back.
 Variable lower : str -> str.
-Variables (d : deployment) (o : oracles) (now_ns : Z) (slug : str) (p : F.pkind) (q : request) (an : answers).
+Variables (d : deployment) (o : oracles) (now_ns : Z) (slug : str) (p : akind) (q : request) (an : answers).
 Let now_s := (now_ns / ns)%Z.
 Let e := benv d p o an now_s.
 Variable h : B.handler.
@@ -649,7 +649,7 @@ End Back.
 (* ---- /redeem: only genuine codes redeem (C08_redeem_genuine), and an issued code does redeem ---- *)
 Section Redeem.
 Variable lower : str -> str.
-Variables (d : deployment) (o : oracles) (now_ns : Z) (slug : str) (p : F.pkind) (q : request) (an : answers).
+Variables (d : deployment) (o : oracles) (now_ns : Z) (slug : str) (p : akind) (q : request) (an : answers).
 Let now_s := (now_ns / ns)%Z.
 Let e := benv d p o an now_s.
 Let r := inner q B.p_redeem.
@@ -724,19 +724,19 @@ End Redeem.
 
 (* what C10_session_email says the IdP vouched for (token endpoint 200 + JSON carrying the
    session's tokens; the e-mail is the verified e-mail of the id_token payload / userinfo) *)
-Definition idp_vouched (p : F.pkind) (an : answers) (code : str) (ts : T.session) : Prop :=
+Definition idp_vouched (p : akind) (an : answers) (code : str) (ts : T.session) : Prop :=
   code <> [] /\ T.s_email ts <> [] /\
   exists tf, an_tok an = T.Resp 200 (T.Json tf) /\
     T.as_string (T.f_access tf) = Some (T.s_access ts) /\ T.as_string (T.f_refresh tf) = Some (T.s_refresh ts) /\
     match p with
-    | F.Google =>
+    | AGoogle =>
         exists idt seg bytes pf,
           T.as_string (T.f_idtoken tf) = Some idt /\
           nth_error (split_on T.dot idt) 1 = Some seg /\
           T.b64url_decode (T.pad4 seg) = Some bytes /\
           an_payload an bytes = T.Json pf /\
           T.f_email pf = T.JStr (T.s_email ts) /\ T.f_verified pf = T.JBool true
-    | F.Okta =>
+    | AOkta =>
         exists uf, an_ui an = T.Resp 200 (T.Json uf) /\ T.f_email uf = T.JStr (T.s_email ts) /\
                    T.f_verified uf = T.JBool true
     end.
@@ -761,7 +761,7 @@ Proof. exact (proj1 (TP.no_panic_fixed (tprov p) (an_payload an) false code (an_
 
 Section Callback.
 Variable lower : str -> str.
-Variables (d : deployment) (o : oracles) (now_ns : Z) (slug : str) (p : F.pkind) (q : request) (an : answers).
+Variables (d : deployment) (o : oracles) (now_ns : Z) (slug : str) (p : akind) (q : request) (an : answers).
 Let now_s := (now_ns / ns)%Z.
 Let r := inner q p_callback.
 Let resp := serve_route lower d slug p q o an now_ns rt_callback r (B.init_state (d_pre d) r).
@@ -887,7 +887,7 @@ Qed.
 
 Section SignOutRoute.
 Variable lower : str -> str.
-Variables (d : deployment) (o : oracles) (now_ns : Z) (slug : str) (p : F.pkind) (q : request) (an : answers).
+Variables (d : deployment) (o : oracles) (now_ns : Z) (slug : str) (p : akind) (q : request) (an : answers).
 Let r := inner q p_sign_out.
 Let resp := serve_route lower d slug p q o an now_ns rt_sign_out r (B.init_state (d_pre d) r).
 Let ack := acookie_of (cookie_of d o (lookup slug (q_sess q))).
@@ -1020,7 +1020,7 @@ End SignOutRoute.
 
 Section StartRoute.
 Variable lower : str -> str.
-Variables (d : deployment) (o : oracles) (now_ns : Z) (slug : str) (p : F.pkind) (q : request) (an : answers).
+Variables (d : deployment) (o : oracles) (now_ns : Z) (slug : str) (p : akind) (q : request) (an : answers).
 Let r := inner q p_start.
 Let resp := serve_route lower d slug p q o an now_ns rt_start r (B.init_state (d_pre d) r).
 Let raw := B.form_get k_redirect_uri (B.url_query r).
@@ -1122,7 +1122,7 @@ Qed.
 
 Section GatesView.
 Variable lower : str -> str.
-Variables (d : deployment) (o : oracles) (now_ns : Z) (slug : str) (p : F.pkind) (q : request) (an : answers).
+Variables (d : deployment) (o : oracles) (now_ns : Z) (slug : str) (p : akind) (q : request) (an : answers).
 Let now_s := (now_ns / ns)%Z.
 Let ck := cookie_of d o (lookup slug (q_sess q)).
 Notation route_resp rt r := (serve_route lower d slug p q o an now_ns rt r (B.init_state (d_pre d) r)).
@@ -1142,7 +1142,7 @@ Definition gview (r : B.request) (sess : G.session) : G.request :=
 
 (* authenticate(), reduced to AuthGates' three situations *)
 Definition gsess_sign_in : G.session :=
-  match F.ao_res (F.auth_authenticate lower (fcfg d) p now_s ck (an_refresh an) (an_validate an)) with
+  match F.ao_res (F.auth_authenticate lower (fcfg d) (fkind p) now_s ck (an_refresh an) (an_validate an)) with
   | inr _ => G.SessGood
   | inl F.ENoCookie => G.SessNone
   | inl _ => G.SessBad
@@ -1177,7 +1177,7 @@ Proof.
   unfold G.sign_in_handler, gsess_sign_in. cbn [G.q_session G.q_provider_valid gview].
   unfold h_sign_in, of_flow_sign_in, F.sign_in. cbn [B.parse_form fst B.form_of].
   change (B.form_get k_redirect_uri (the_form r)) with (redirect_value r). fold ck now_s.
-  destruct (F.ao_res (F.auth_authenticate lower (fcfg d) p now_s ck (an_refresh an) (an_validate an))) as [[]|s0];
+  destruct (F.ao_res (F.auth_authenticate lower (fcfg d) (fkind p) now_s ck (an_refresh an) (an_validate an))) as [[]|s0];
     try (cbn; reflexivity).
   unfold G.proxy_oauth_redirect, F.proxy_oauth_redirect. cbn [G.q_form_ok G.q_state G.q_uri G.q_query_ok gview F.si_state].
   rewrite Ei. cbn [negb].
@@ -1578,7 +1578,7 @@ Theorem code_end_to_end d q o an now_ns src s :
        F.s_email s = F.s_email s0 /\ F.s_lifetime s = F.s_lifetime s0 /\ F.s_rtok s = F.s_rtok s0 /\
        r_sess_ops resp = [F.OpSet s] /\
        exists calls, r_calls resp = map CIdp calls /\
-         (FP.refreshed_ok now_s s0 (an_refresh an) s calls \/ FP.validated_ok k now_s s0 (an_validate an) s calls)) /\
+         (FP.refreshed_ok now_s s0 (an_refresh an) s calls \/ FP.validated_ok (fkind k) now_s s0 (an_validate an) s calls)) /\
     r_status resp = 302 /\
     (* C08: the code is a seal under the AUTH-CODE key of exactly that session: whoever presents a
        string that opens under that key to s, with the client credentials, within its deadlines,
@@ -1650,11 +1650,11 @@ Proof.
   - right. split; [exact Hr|]. rewrite He in Hin.
     destruct (sign_in_ran_cases lower d o now_ns slug k q an) as [Hran|Hran].
     + destruct (sign_in_entered lower d o now_ns slug k q an Hran) as [_ Hx]. rewrite Hx in Hin.
-      assert (Hops : In (F.OpSet s) (F.r_ops (F.sign_in lower (fcfg d) k (now_ns / ns)
+      assert (Hops : In (F.OpSet s) (F.r_ops (F.sign_in lower (fcfg d) (fkind k) (now_ns / ns)
                  (F.mkSI true true true true (B.form_get k_state (the_form (inner q p_sign_in))))
                  (cookie_of d o (lookup slug (q_sess q))) (an_refresh an) (an_validate an)))).
       { unfold of_flow_sign_in in Hin. destruct (F.r_code _); [destruct (o_query_ok _ _)|destruct (F.r_body _)]; exact Hin. }
-      destruct (FP.sign_in_route_sets lower (fcfg d) k (now_ns / ns) (F.mkSI true true true true _) _ _ _ s Hops)
+      destruct (FP.sign_in_route_sets lower (fcfg d) (fkind k) (now_ns / ns) (F.mkSI true true true true _) _ _ _ s Hops)
         as [s0 [Hck [Hl [E1 [E2 [E3 E4]]]]]].
       destruct (cookie_of_sealed d o _ s0 Hck) as [c [Hlk Hop]].
       exists c, s0. repeat (split; [assumption|]). exact E4.
@@ -1903,7 +1903,7 @@ Module Ex.
 Import Coq.Strings.String.StringSyntax.
 Notation bs := H.bs.
 Definition d : deployment :=
-  {| d_host := bs "a"; d_slugs := [(bs "g", F.Google)]; d_pre := false; d_proxy_domains := [bs "ex.com"];
+  {| d_host := bs "a"; d_slugs := [(bs "g", AGoogle)]; d_pre := false; d_proxy_domains := [bs "ex.com"];
      d_client_id := bs "i"; d_client_secret := bs "s"; d_scheme := bs "https"; d_addresses := [];
      d_email_domains := [bs "ex.com"]; d_lifetime := 3600%Z; d_code_key := 2; d_cookie_key := 1 |}.
 Definition uri := bs "https://a.ex.com/".
@@ -1942,7 +1942,7 @@ Example nonvacuous :
    r_status r = 302 /\ r_loc r = LVerbatim Ex.uri /\ r_sess_ops r = [F.OpClear] /\ r_calls r = [CRevoke [116]]) /\
   (let r := serve lower_ascii Ex.d Ex.q_other_host Ex.o Ex.an (1100 * ns)%Z in
    r_status r = 421 /\ r_secured r = false /\ r_loc r = LNone) /\
-  routed Ex.d Ex.q_sign_in [103] F.Google p_sign_in.
+  routed Ex.d Ex.q_sign_in [103] AGoogle p_sign_in.
 Proof.
   repeat split; try (vm_compute; reflexivity). vm_compute. discriminate.
 Qed.
